@@ -70,7 +70,7 @@ def trace_level(ck, eng, pop):
     pick = []
     for label, shapes in pop.items():
         if label.startswith('general'): continue
-        k = {'acyclic_exhaustive_n<=3': 60 if quick else 400}.get(label, 30 if quick else 250)
+        k = {'acyclic_exhaustive_n<=3': 60 if quick else 250}.get(label, 30 if quick else 150)
         pick += [(label, s) for s in rng.sample(shapes, min(k, len(shapes)))]
     jobs = []
     for label, shape in pick:
